@@ -300,6 +300,11 @@ func (m *monitor) Snapshot() []kemtypes.ObjectAndFilterResult {
 // Also executes eventCb for events accumulated during "Synchronization" phase.
 func (m *monitor) EnableKubeEventCb() {
 	verifhook.Yield("mon.EnableKubeEventCb.begin")
+	// Enable events for future VaryingInformers first: informers of a namespace that appears
+	// while the loops below are running either see this flag or are already stored and get
+	// enabled by the loop. Setting the flag after the loops leaves a window in which such
+	// informers are never enabled.
+	m.eventsEnabled = true
 	verifhook.Yield("mon.EnableKubeEventCb.setFlag")
 	for _, informer := range m.ResourceInformers {
 		informer.enableKubeEventCb()
@@ -313,8 +318,6 @@ func (m *monitor) EnableKubeEventCb() {
 		}
 	})
 	verifhook.Yield("mon.EnableKubeEventCb.beforeFlag")
-	// Enable events for future VaryingInformers.
-	m.eventsEnabled = true
 }
 
 // CreateInformersForNamespace creates informers bounded to the namespace. If no matchName is specified,
